@@ -82,6 +82,11 @@ def check(ctx):
     r3.check(n_prop >= 2, 'callable propagation runs twice', rel, val.lineno,
              'validate() runs _introspectable_callable_analysis %d time(s): demotions decided late in a walk (a callback that becomes non-introspectable only in its own analysis) '
              'are not propagated to callables visited earlier, which stay introspectable while using a non-introspectable type' % n_prop, detail=n_prop)
+    loops_around = any(isinstance(a, (ast.While, ast.For)) for c in P.calls_in(val) if P.src(c.func) == 'self._namespace.walk' and c.args and
+                       '_introspectable_callable_analysis' in P.src(c.args[0]) for a in _ancestors(c))
+    r3.check(loops_around, 'callable propagation reaches a fixed point', rel, val.lineno,
+             'validate() propagates non-introspectability with a fixed number of walks (%d): a dependency chain of depth three (function -> callback -> callback with a '
+             'va_list parameter, visited in that order) leaves the function introspectable although it uses a non-introspectable type' % n_prop, detail=n_prop)
     sites = {
         'alias target': ('_introspectable_alias_analysis', 'obj.introspectable', 'self._type_is_introspectable(obj.target)'),
         'parameter types': ('_introspectable_callable_analysis', 'obj.introspectable', 'self._type_is_introspectable(param.type)'),
@@ -153,3 +158,10 @@ def check(ctx):
     inv = [e for e in P.effects(p2) if e.kind == 'store' and e.target == 'vfunc.invoker']
     r4.check(any(e.value == 'node.name' and any(g.kind == 'for' and 'parent.virtual_methods' in g.text() for g in e.guards) for e in inv), 'invoker recorded on a vfunc of the method\'s own parent', mt.rel, p2.lineno,
              'invoker stores: %s' % inv)
+
+
+def _ancestors(n):
+    n = P.parent(n)
+    while n is not None:
+        yield n
+        n = P.parent(n)
